@@ -15,11 +15,13 @@ def main():
     if os.path.exists(mp):
         matrix = json.load(open(mp))
     rows = []
-    for d in sorted(glob.glob(os.path.join(SEEDED, "C*"))):
+    for d in sorted(glob.glob(os.path.join(SEEDED, "C*")) + sorted(glob.glob(os.path.join(SEEDED, "X*")), key=lambda x: int(os.path.basename(x)[1:]))):
+        if not os.path.isdir(d):
+            continue
         name = os.path.basename(d)
         meta = json.load(open(os.path.join(d, "meta.json")))
         v = meta.get("verified_by_us", {})
-        target = meta.get("property", name[:3])
+        target = str(meta.get("property", name[:3])).split()[0].strip(",;")
         chk = dict(v.get("checks", {}))
         chk.update(matrix.get(name, {}))
         caught = sorted(p for p, c in chk.items() if c.get("rc") == 1)
